@@ -573,4 +573,42 @@ theorem rrRunPolls_unblocks (s : RR) : ∀ orc : Nat → List Nat × List Nat,
       obtain ⟨n, hn, hfin⟩ := ih _ (by omega) (rrPoll (rwork s + 1) (withOracles s (orc 0))).2 rfl (fun k => orc (k + 1))
       exact ⟨n + 1, by omega, hfin⟩
 
+/-! ### shutdown -/
+
+theorem rrPoll_keeps_closed (fuel : Nat) (s : RR) (hc : s.closed = true) : (rrPoll fuel s).2.closed = true := by
+  induction fuel generalizing s with
+  | zero => exact hc
+  | succ fuel ih =>
+    unfold rrPoll
+    have := iter_closed s hc
+    cases hi : iter s with
+    | ret o s' => rw [hi] at this; exact this.2
+    | next s' => rw [hi] at this; exact absurd this id
+    | again s' => rw [hi] at this; exact ih s' this
+
+theorem rrRunPolls_keeps_closed (orc : Nat → List Nat × List Nat) (n : Nat) (s : RR) (hc : s.closed = true) :
+    (rrRunPolls orc n s).closed = true := by
+  induction n generalizing orc s with
+  | zero => exact hc
+  | succ n ih => simp only [rrRunPolls]; exact ih _ _ (rrPoll_keeps_closed _ _ hc)
+
+/-- After the channel has been closed the wake-driven executor brings the request/reply router to `done` within
+    `rmeasure s` further polls, and at that point every requestor sink is flushed. -/
+theorem rrRunPolls_closed_finishes (s : RR) (hc : s.closed = true) (orc : Nat → List Nat × List Nat) :
+    ∃ n, n ≤ rmeasure s ∧
+      (rrPoll (rwork (rrRunPolls orc n s) + 1) (withOracles (rrRunPolls orc n s) (orc n))).1 = .done ∧
+      ∀ k ∈ (rrPoll (rwork (rrRunPolls orc n s) + 1) (withOracles (rrRunPolls orc n s) (orc n))).2.sinks,
+        k.flushed = k.got.length := by
+  obtain ⟨n, hn, hb⟩ := rrRunPolls_unblocks s orc
+  have hcl : (withOracles (rrRunPolls orc n s) (orc n)).closed = true := rrRunPolls_keeps_closed orc n s hc
+  have hw : rwork (withOracles (rrRunPolls orc n s) (orc n)) = rwork (rrRunPolls orc n s) := rfl
+  have hdone : (rrPoll (rwork (rrRunPolls orc n s) + 1) (withOracles (rrRunPolls orc n s) (orc n))).1 = .done := by
+    rcases rrPoll_closed (rwork (rrRunPolls orc n s) + 1) (withOracles (rrRunPolls orc n s) (orc n)) hcl with h | h | h | h | h
+    · exact h
+    · rw [h] at hb; cases hb
+    · rw [h] at hb; cases hb
+    · rw [h] at hb; cases hb
+    · exact absurd h (rrPoll_terminates _ _ (by rw [hw]; exact Nat.lt_succ_self _))
+  exact ⟨n, hn, hdone, (rrPoll_quiet _ _).2 hdone⟩
+
 end Selium.Route
